@@ -341,6 +341,14 @@ void NTT_Goldilocks::extendPol(Goldilocks::Element *output, Goldilocks::Element 
         tmp = buffer;
     }
     // TODO: Pre-compute r
+    if (r != NULL && r_size != N)
+    {
+        // the cached tables belong to another N
+        delete[] r;
+        delete[] r_;
+        r = NULL;
+        r_ = NULL;
+    }
     if (r == NULL)
     {
         computeR(N);
